@@ -2,8 +2,8 @@ package main
 
 import (
 	"fmt"
-	"os"
 	"go/token"
+	"os"
 	"path/filepath"
 	"strings"
 )
@@ -165,4 +165,3 @@ func (i *Interp) raceAccess(fr *frame, addr interface{}, write bool, what string
 		h.reads = append(h.reads, me)
 	}
 }
-
